@@ -428,6 +428,24 @@ class EscapeAnalysis:
                     present = any(pol and g in (f"{ktxt} in {unparse(v)}", f"{ktxt} in {unparse(v)}.keys()") for g, pol in atomic_guards(guards_at(prog, fi, n))) \
                         or any((not pol) and g in (f"{ktxt} not in {unparse(v)}", f"{ktxt} not in {unparse(v)}.keys()") for g, pol in atomic_guards(guards_at(prog, fi, n)))
                     if not present:
+                        # inside a handler that cannot catch KeyError, of a try whose body evaluates the very same subscript:
+                        # the handler only runs after that evaluation succeeded (nothing in between changes the map)
+                        for anc in prog.ancestors(n):
+                            if isinstance(anc, ast.ExceptHandler):
+                                tr_ = prog.parent(anc)
+                                hn = [unparse(x).rsplit(".", 1)[-1] for x in (anc.type.elts if isinstance(anc.type, ast.Tuple) else [anc.type])] if anc.type is not None else ["BaseException"]
+                                if isinstance(tr_, ast.Try) and not (set(hn) & {"KeyError", "LookupError", "Exception", "BaseException"}) \
+                                        and any(isinstance(x, ast.Subscript) and unparse(x) == unparse(n) for st_ in tr_.body for x in ast.walk(st_)) \
+                                        and sum(1 for st_ in tr_.body for x in ast.walk(st_) if isinstance(x, (ast.Call, ast.Subscript))) <= 3:
+                                    present = True
+                                break
+                            if anc is fi.node:
+                                break
+                    if not present:
+                        if isinstance(v, ast.Name) and isinstance(n.slice, ast.Name) and v.id in fi.params() and n.slice.id in fi.params():
+                            # remembered for the call sites: a caller may hand over a key it has taken from the map itself
+                            self._keyerr_params = getattr(self, "_keyerr_params", {})
+                            self._keyerr_params[(fi.qual, f"{short(n, 50)}: key may be missing")] = (v.id, n.slice.id)
                         out.append((n, ("KeyError",), root, f"{short(n, 50)}: key may be missing"))
                 elif nt is not None and ("list" in nt or "str" in nt):
                     if not is_slice:
@@ -554,6 +572,46 @@ class EscapeAnalysis:
                 if n.iter.func.attr == "items" and isinstance(n.target, ast.Tuple) and n.target.elts and isinstance(n.target.elts[0], ast.Name) and n.target.elts[0].id == e.id:
                     return True
                 if n.iter.func.attr == "keys" and isinstance(n.target, ast.Name) and n.target.id == e.id:
+                    return True
+        return False
+
+    def _member_of(self, fi: FuncInfo, key: ast.AST, doc: ast.AST, at: ast.AST, depth: int = 0) -> bool:
+        """``key`` is known to be a key of the map ``doc`` at ``at``: guarded by `key in doc`, or bound (once) to an element
+        drawn from a generator that keeps only elements `x in doc` (next(...), single-element unpacking), or to the result
+        of a helper all of whose returns are such an element for the corresponding parameter."""
+        prog = self.prog
+        dtxt = unparse(doc)
+        if any(pol and g in (f"{unparse(key)} in {dtxt}", f"{unparse(key)} in {dtxt}.keys()") for g, pol in atomic_guards(guards_at(prog, fi, at))):
+            return True
+        if not isinstance(key, ast.Name) or depth > 2:
+            return False
+
+        def filtered_gen(e: ast.AST, dname: str) -> bool:
+            if isinstance(e, ast.Call) and call_name(e) == "next" and e.args:
+                e = e.args[0]
+            if isinstance(e, (ast.GeneratorExp, ast.ListComp)) and len(e.generators) == 1 and isinstance(e.elt, ast.Name) and isinstance(e.generators[0].target, ast.Name) \
+                    and e.elt.id == e.generators[0].target.id:
+                return any(isinstance(c, ast.Compare) and len(c.ops) == 1 and isinstance(c.ops[0], ast.In) and unparse(c.left) == e.elt.id and unparse(c.comparators[0]) in (dname, dname + ".keys()")
+                           for c in e.generators[0].ifs)
+            return False
+        binds = [st for st in ast.walk(fi.node) if isinstance(st, ast.Assign) and any(isinstance(t, ast.Name) and t.id == key.id for tg in st.targets for t in ast.walk(tg))]
+        if len(binds) != 1 or any(isinstance(x, (ast.For, ast.comprehension)) and any(isinstance(t, ast.Name) and t.id == key.id for t in ast.walk(x.target)) for x in ast.walk(fi.node)):
+            return False
+        st = binds[0]
+        tg = st.targets[0]
+        if isinstance(tg, (ast.Tuple, ast.List)) and len(tg.elts) == 1 and isinstance(tg.elts[0], ast.Name) and filtered_gen(st.value, dtxt):
+            return True
+        if isinstance(tg, ast.Name) and filtered_gen(st.value, dtxt) and isinstance(st.value, ast.Call):
+            return True
+        if isinstance(tg, ast.Name) and isinstance(st.value, ast.Call) and isinstance(st.value.func, ast.Attribute) and isinstance(st.value.func.value, ast.Name) \
+                and st.value.func.value.id in ("cls", "self") and fi.cls is not None:
+            h = prog.lookup_method(fi.cls.qual, st.value.func.attr)
+            if h is not None:
+                ps = [p_ for p_ in h.params() if p_ not in ("self", "cls")]
+                bound = {ps[i]: a_ for i, a_ in enumerate(st.value.args) if i < len(ps)}
+                dparam = next((p_ for p_, a_ in bound.items() if unparse(a_) == dtxt), None)
+                rets = [x for x in walk_no_nested(h.node) if isinstance(x, ast.Return)]
+                if dparam and rets and all(x.value is not None and filtered_gen(x.value, dparam) for x in rets):
                     return True
         return False
 
@@ -756,6 +814,14 @@ class EscapeAnalysis:
                                 continue
                             if self._caught(fi, site.node, e.exc):
                                 continue
+                            kp = getattr(self, "_keyerr_params", {}).get((callee, e.why)) if e.exc == "KeyError" and e.origin_fn == callee else None
+                            if kp is not None and isinstance(site.node, ast.Call):
+                                cf_ = prog.funcs.get(callee)
+                                ps_ = [p_ for p_ in cf_.params() if p_ not in ("self", "cls")] if cf_ is not None else []
+                                bound_ = {ps_[i]: a_ for i, a_ in enumerate(site.node.args) if i < len(ps_)}
+                                bound_.update({k_.arg: k_.value for k_ in site.node.keywords if k_.arg})
+                                if kp[0] in bound_ and kp[1] in bound_ and self._member_of(fi, bound_[kp[1]], bound_[kp[0]], site.node):
+                                    continue  # the key was drawn from the keys of this very map
                             ne = Esc(e.exc, e.origin_fn, e.origin, e.loc, e.why, (q,) + e.path)
                             ne.strict_only = getattr(e, "strict_only", False)  # type: ignore[attr-defined]
                             self.escapes[q][k] = ne
